@@ -344,4 +344,81 @@ func legRobust(c *Ctx) {
 		}
 	}
 	c.Gate("loop-direction stress ran", loopCalls > 50000)
+
+	// balancing groups on every open/close sequence up to a bound, read back through every accessor: a pop is
+	// recorded as a reference to an earlier capture and resolved when values are read; a chain of references
+	// (sibling pairs nested in an open outer pair) must never turn into a text index
+	balCalls := 0
+	for _, bp := range []struct{ pat, alpha string }{
+		{`^(?:(?<o>[a-c])|(?<-o>\.))+=\k<o>$`, "ab.="},
+		{`^(?:(?<o><)|(?<c-o>>)|[^<>])*$`, "<>a"},
+		{`(?:(?<o>a)|(?<c-o>b))+`, "ab"},
+		{`(?:(?<o>a)|(?<c-o>b)|(?<d-c>x))+\k<d>?`, "abx"},
+		{`(?:(?<o>a)|(?<-o>b))+(?(o)a|b)`, "ab"},
+	} {
+		for _, ro := range []regexp2.RegexOptions{0, regexp2.RightToLeft} {
+			re, err := regexp2.Compile(bp.pat, ro)
+			if err != nil {
+				continue
+			}
+			re.MatchTimeout = 200 * time.Millisecond
+			al := []rune(bp.alpha)
+			maxLen := 6
+			if len(al) > 3 {
+				maxLen = 5
+			}
+			var bad []string
+			var rec func(cur []rune)
+			rec = func(cur []rune) {
+				if len(bad) > 0 {
+					return
+				}
+				if len(cur) > 0 {
+					in := string(cur)
+					balCalls++
+					guarded(fmt.Sprintf("match+read(%q)", in), &bad, false, func() error {
+						m, err := re.FindStringMatch(in)
+						for k := 0; m != nil && err == nil && k < len(cur)+2; k++ {
+							_ = m.String()
+							for _, g := range m.Groups() {
+								_ = g.String()
+								g.ByteRange()
+								for _, cp := range g.Captures {
+									_ = cp.String()
+									cp.ByteRange()
+								}
+							}
+							m, err = re.FindNextMatch(m)
+						}
+						if err != nil {
+							return err
+						}
+						if _, err := re.Replace(in, "[${o}$1$2$3]", -1, -1); err != nil {
+							return err
+						}
+						if _, err := re.Split(in, -1); err != nil {
+							return err
+						}
+						w := compat.Wrap(re)
+						w.FindAllStringSubmatchIndex(in, -1)
+						w.FindAllStringSubmatch(in, -1)
+						return nil
+					})
+				}
+				if len(cur) == maxLen {
+					return
+				}
+				for _, ch := range al {
+					rec(append(append([]rune{}, cur...), ch))
+				}
+			}
+			rec(nil)
+			cs := &Case{Desc: fmt.Sprintf("balancing pattern %+q options=%#x, every string over %q up to length %d", bp.pat, int(ro), bp.alpha, maxLen), Nontrivial: true, Key: bp.pat + fmt.Sprint(ro), Class: "balancing"}
+			if len(bad) > 0 {
+				cs.Direct = strings.Join(bad, " | ")
+			}
+			c.Add(cs)
+		}
+	}
+	c.Gate("balancing stress ran", balCalls > 2000)
 }
